@@ -168,6 +168,8 @@ fn enc_hist(init: u16, hist: &[Act]) -> String {
             Act::Op(o, i) => format!("O{}.{}", o, i),
             Act::Shl(s) => format!("L{}", s),
             Act::Shr(s) => format!("R{}", s),
+            Act::ShlRef(s) => format!("l{}", s),
+            Act::ShrRef(s) => format!("r{}", s),
             Act::SetBit(b, v) => format!("B{}.{}", b, *v as u8),
             Act::SetZero => "Z".to_string(),
             Act::SetOne => "I".to_string(),
@@ -196,6 +198,8 @@ fn dec_hist(key: &str) -> Option<(u16, Vec<Act>)> {
             }
             "L" => Act::Shl(rest.parse().ok()?),
             "R" => Act::Shr(rest.parse().ok()?),
+            "l" => Act::ShlRef(rest.parse().ok()?),
+            "r" => Act::ShrRef(rest.parse().ok()?),
             "B" => {
                 let (a, b) = two(rest)?;
                 Act::SetBit(a, b == 1)
@@ -220,6 +224,9 @@ enum Act {
     Op(u8, u8), // operator, operand index
     Shl(u32),
     Shr(u32),
+    /// the shift-assign forms taking the amount by reference (`x <<= &k`, `x >>= &k`), with a narrow amount type
+    ShlRef(u32),
+    ShrRef(u32),
     SetBit(u32, bool),
     SetZero,
     SetOne,
@@ -358,6 +365,10 @@ fn enabled_int(v: &Int, out: &mut Vec<Act>) {
     for &s in &SHIFTS {
         out.push(Act::Shl(s));
         out.push(Act::Shr(s));
+        if s == 1 || s == 64 || s == 130 {
+            out.push(Act::ShlRef(s));
+            out.push(Act::ShrRef(s));
+        }
     }
     for &b in &BITS {
         out.push(Act::SetBit(b, true));
@@ -436,6 +447,16 @@ fn apply_int(x: &mut BigInt, v: &mut Int, a: Act) -> Result<(), String> {
         Act::Shr(s) => {
             *v = v.shr_floor(s as u64);
             guard(|| *x >>= s)
+        }
+        Act::ShlRef(s) => {
+            *v = v.shl(s as u64);
+            let k = s as u8;
+            guard(|| *x <<= &k)
+        }
+        Act::ShrRef(s) => {
+            *v = v.shr_floor(s as u64);
+            let k = s as usize;
+            guard(|| *x >>= &k)
         }
         Act::SetBit(b, val) => {
             *v = v.set_bit(b as u64, val);
@@ -689,6 +710,10 @@ fn enabled_uint(v: &Nat, out: &mut Vec<Act>) {
     for &s in &SHIFTS {
         out.push(Act::Shl(s));
         out.push(Act::Shr(s));
+        if s == 1 || s == 64 || s == 130 {
+            out.push(Act::ShlRef(s));
+            out.push(Act::ShrRef(s));
+        }
     }
     for &b in &BITS {
         out.push(Act::SetBit(b, true));
@@ -760,6 +785,16 @@ fn apply_uint(x: &mut BigUint, v: &mut Nat, a: Act) -> Result<(), String> {
         Act::Shr(s) => {
             *v = v.shr(s as u64);
             guard(|| *x >>= s)
+        }
+        Act::ShlRef(s) => {
+            *v = v.shl(s as u64);
+            let k = s as u8;
+            guard(|| *x <<= &k)
+        }
+        Act::ShrRef(s) => {
+            *v = v.shr(s as u64);
+            let k = s as usize;
+            guard(|| *x >>= &k)
         }
         Act::SetBit(b, val) => {
             v.set_bit(b as u64, val);
